@@ -266,4 +266,40 @@ SEEDED CHANGE C19f (independently written, /verif/seeded/C19f) - first MISSED, n
           ...|path=consensus|oracle={consensus-evidence-not-kept,unsound-accept} at heights head and head+1.
           unchanged /repo (2cbc26b): quick exit 0 twice (5 known findings, same signatures), thorough exit 0 once
           (139 s). Quick cost unchanged within noise (user CPU 58-72 s before and after; part (a) 1.1 s -> 1.7 s).
+
+=====================================================================================================
+SEEDED CHANGE C19h (independently written, /verif/seeded/C19h) - first MISSED, now caught
+=====================================================================================================
+
+ mutant   /verif/mutants/c19-seeded-h-pending-keys-unpadded-height.patch (= seeded/C19h/patch.diff): keySuffix prints
+          the height with %X instead of zero-padded %0.16X, so pending keys no longer sort by height
+          (16 = "10" sorts before 15 = "F"); removeExpiredPendingEvidence walks the keys in database order and stops
+          at the first unexpired record, so expired evidence that sorts after younger, unexpired evidence is never
+          pruned: it stays pending, is listed for proposals, passes CheckEvidence through the pending fast path and
+          is reloaded into the gossip list by NewPool.
+ miss     `./run.sh C19 quick` exited 0: every enumerated world lived below height 16 (fixture 12-13 blocks, netsim
+          <= 5 heights, full-stack probe 5 blocks), so all heights had one hex digit and %X order == padded order.
+          (Several pieces pending at expiry time did occur in part (b): Eold with E1 / E2 - but at heights 3 and 5.)
+ now      the fixture chain is 262 blocks (real executor, 0.4 s) with a 100 s gap before heights 16 and 256.
+          Expiry-order worlds (partw.go), at the boundaries 15/16 and 255/256, on live chains (real store + pool +
+          executor, one database): at head B every non-empty subset of the evidence of heights {B-2, B-1, B} enters
+          (all by AddEvidence / all by CheckEvidence / first by AddEvidence, rest by CheckEvidence), then four blocks,
+          with evidence of height B+1 optionally added at head B+1 and a restart optionally before any block or
+          after the last: 2 x 216 histories. With MaxAgeNumBlocks 2 / MaxAgeDuration 30 s the evidence of B-2 and B-1
+          expires at heads B+1 and B+2, that of B and B+1 never. After every Update and every restart: pending keys
+          == what PendingEvidence lists == reference pending set (entered, uncommitted, unexpired at the new head),
+          Size() == number of keys, gossip list is a subset of pending and holds every added / reloaded piece;
+          CheckEvidence([e]) nil exactly for the reference set; a block carrying an expired e is refused by the real
+          ValidateBlock. Vacuity guards: an Update with an expired narrow-height piece and an unexpired wide-height
+          piece both pending did happen, and pruning while younger evidence stays pending did happen.
+ result   seeded change: exit 1, twice, identical 8 signatures (4 per boundary):
+              C19|part=a|world=expiry-order|boundary=15/16|pending=15+17-later|entry=add|restart=none|oracle=pending-includes-expired
+              ...|oracle=expired-evidence-accepted            (CheckEvidence fast path)
+              ...|oracle=expired-evidence-accepted-in-block   (real ValidateBlock)
+              ...|oracle=gossip-list-includes-expired
+              and the same four with boundary=255/256|pending=255+257-later
+          (the signature names the smallest failing history: one old piece, one piece of the wider height.)
+          unchanged /repo (2f0de4a): quick exit 0 twice (5 known findings, same signatures), thorough exit 0 once;
+          the seeded changes C19b and C19f are still caught. Quick cost: +0.4 s for the longer fixture, +0.2 s for
+          the worlds (user CPU 61-64 s, as before within noise).
 */
